@@ -31,6 +31,12 @@ def file_kernel_src():
             "    }\n  }\n}\n")
 
 
+def raw_kernel_src(mul):
+    # not OKL: handed to the compiler as it is (okl/enabled=false); no translation, no build.json
+    return ('extern "C" void k(const int &n, int *out) {\n'
+            "  for (int i = 0; i < n; ++i) out[i] = i * %d + ADD;\n}\n" % mul)
+
+
 class SimpleJob:
     """A build+run job whose expected output is computed by a two-line model."""
 
@@ -47,6 +53,10 @@ class SimpleJob:
              "props": {"defines": {"ADD": self.add}, "compiler": simcc()}}
         if self.kind == "string":
             j["source"] = string_kernel_src(self.mul)
+        elif self.kind == "raw":
+            j["kind"] = "string"
+            j["source"] = raw_kernel_src(self.mul)
+            j["props"]["okl"] = {"enabled": False}
         else:
             j["file"] = self.fname
         return j
